@@ -71,7 +71,7 @@ def lib_inputs():
 
 
 def build(flavour):
-    bdir = os.path.join(VERIF, "build", flavour)
+    bdir = os.path.join(os.environ.get("IVSIM_BUILD", os.path.join(VERIF, "build")), flavour)
     os.makedirs(bdir, exist_ok=True)
     lock = open(os.path.join(bdir, ".lock"), "w")
     fcntl.flock(lock, fcntl.LOCK_EX)
